@@ -245,6 +245,8 @@ mod bwk;
 pub use bwk::*;
 
 mod time;
+#[cfg(biscuit_auth_verif)]
+pub mod verif;
 
 /// Procedural macros to construct Datalog policies
 #[cfg(feature = "datalog-macro")]
